@@ -161,6 +161,29 @@ def check_pair(ctx, t1, t2, zip_, thr, vb, view, always, lines, metas, impl_only
     return ok_dom
 
 
+def flat_dict_pairs(ctx, n):
+    """flat dictionaries: string keys, scalar values, keys added / removed / changed in value / changed in type at once"""
+    fk = ['a', 'b', 'c', 'dd', 'x y', 'old_value', 'new_value', '', 'A', '_p', '1', "q'r"]
+    fv = [None, True, False, 0, 1, -3, 2.5, 0.0, 'a', '', 'line1\nline2', b'x', b'', 10**20]
+    out = []
+    for _ in range(n):
+        d1 = {k: ctx.rng.choice(fv) for k in ctx.rng.sample(fk, ctx.rng.randint(0, 7))}
+        d2 = dict(d1)
+        for k in list(d2):
+            c = ctx.rng.random()
+            if c < 0.25:
+                del d2[k]
+            elif c < 0.6:
+                d2[k] = ctx.rng.choice(fv)
+        for k in ctx.rng.sample(fk, ctx.rng.randint(0, 3)):
+            d2.setdefault(k, ctx.rng.choice(fv))
+        if ctx.rng.random() < 0.3:
+            d2 = dict(sorted(d2.items(), key=lambda kv: ctx.rng.random()))
+        out.append((d1, d2))
+        ctx.count('flat_dict_pairs')
+    return out
+
+
 def strict_eq_safe(a, b):
     try:
         return strict_eq(a, b)
@@ -182,24 +205,7 @@ def run(ctx, impl_only=False):
         w = ctx.rng.choice([lambda x: x, lambda x: [x, 0], lambda x: {'t': x}])
         pairs.append((w(t), w(u)))
     pairs += FAM.rich_pairs(ctx, n // 3)           # Decimal, bytes, aware datetimes, date, time, timedelta, UUID, complex, frozenset leaves
-    # flat dictionaries (the domain of C01_flat_dict_roundtrip): string keys, scalar values, keys added / removed / changed in value / changed in type at once
-    fk = ['a', 'b', 'c', 'dd', 'x y', 'old_value', 'new_value', '', 'A', '_p', '1', "q'r"]
-    fv = [None, True, False, 0, 1, -3, 2.5, 0.0, 'a', '', 'line1\nline2', b'x', b'', 10**20]
-    for _ in range(n // 2):
-        d1 = {k: ctx.rng.choice(fv) for k in ctx.rng.sample(fk, ctx.rng.randint(0, 7))}
-        d2 = dict(d1)
-        for k in list(d2):
-            c = ctx.rng.random()
-            if c < 0.25:
-                del d2[k]
-            elif c < 0.6:
-                d2[k] = ctx.rng.choice(fv)
-        for k in ctx.rng.sample(fk, ctx.rng.randint(0, 3)):
-            d2.setdefault(k, ctx.rng.choice(fv))
-        if ctx.rng.random() < 0.3:
-            d2 = dict(sorted(d2.items(), key=lambda kv: ctx.rng.random()))
-        pairs.append((d1, d2))
-        ctx.count('flat_dict_pairs')
+    pairs += flat_dict_pairs(ctx, n // 2)          # the domain of C01_flat_dict_roundtrip
     lines, metas = [], []
     nsp = len(special_pairs())
     for i, (t1, t2) in enumerate(pairs):
